@@ -281,6 +281,22 @@ def handle (line : String) : Except String Json := do
     then pure evalErr else
     pure (rowsJson (applyOffset ((← optNat j "offset").getD 0)
       (scan src (cond.map (condFn cfg)) (projs.map fun es => fun r => es.map fun e => condFn cfg e r) (← optNat j "cap"))))
+  | "join_agg" =>
+    -- join (nested loop / hash), then aggregate() with computed operands over the joined rows
+    let side ← (← field j "side").getStr?
+    let width ← (← field j "width").getNat?
+    let L ← jRows (← field j "L")
+    let R ← jRows (← field j "R")
+    let ks ← jNats (← field j "ks")
+    let kj ← jNats (← field j "kj")
+    let joined := if ks.isEmpty then nestedLoopJoin cfg side width (fun _ _ => true) L R
+      else hashJoin cfg side width (fun l => ks.map (SqlglotModel.Sem.getCol l)) (fun r => kj.map (SqlglotModel.Sem.getCol r)) none L R
+    let ops ← (← (← field j "operands").getArr?).toList.mapM jExpr
+    if joined.any (fun r => ops.any fun e => (SqlglotModel.Exec.eval cfg r e).isNone) then pure evalErr else
+    let rows := widened joined (joined.map fun r => ops.map fun e => condFn cfg e r)
+    let keys ← jNats (← field j "keys")
+    let agg ← jAggs (← field j "aggs") aggFn
+    pure (rowsJson (aggregate cfg (fun r => keys.map (SqlglotModel.Sem.getCol r)) agg (!keys.isEmpty) none none rows))
   | "subq_cmp" =>
     match subqueryComparison cfg (← (← field j "fn").getStr?) (← (← field j "quantifier").getStr?) (← jVal (← field j "v"))
         (← jRow (← field j "xs")) with
